@@ -6,7 +6,7 @@
 (* volume / centroid / second moments by exact integration over the cone   *)
 (* decomposition from the origin.  Nothing here refers to coxeter.         *)
 (***************************************************************************)
-EXTENDS Exact
+EXTENDS Exact, SequencesExt
 
 Collinear3(a, b, c) == Cross3(Sub3(b, a), Sub3(c, a)) = <<0, 0, 0>>
 
@@ -15,16 +15,26 @@ Supporting(a, b, c, V) == ~Collinear3(a, b, c) /\ \A p \in V : Orient3(a, b, c, 
 
 OnPlane(a, b, c, V) == {p \in V : Orient3(a, b, c, p) = 0}
 
-\* the facets of conv(V), each as the set of vertices lying on it
-Facets(V) == { OnPlane(t[1], t[2], t[3], V) :
-                 t \in {u \in V \X V \X V : Supporting(u[1], u[2], u[3], V)} }
+\* the facets of conv(V), each as the set of vertices lying on it.  Enumerated over unordered triples
+\* (i < j < k in an arbitrary enumeration of V) with both orientations tested, which is what keeps
+\* 30..48-point shells affordable in TLC.
+OneSided(a, b, c, V) == ~Collinear3(a, b, c) /\ ( (\A p \in V : Orient3(a, b, c, p) <= 0)
+                                               \/ (\A p \in V : Orient3(a, b, c, p) >= 0) )
+Facets(V) == LET s == SetToSeq(V)  n == Len(s) IN
+    { OnPlane(s[t[1]], s[t[2]], s[t[3]], V) :
+        t \in {u \in (1..n) \X (1..n) \X (1..n) : u[1] < u[2] /\ u[2] < u[3] /\ OneSided(s[u[1]], s[u[2]], s[u[3]], V)} }
 
 FullDim(V) == \E a, b, c, d \in V : Orient3(a, b, c, d) # 0
 
-\* an (unnormalised) integer outward normal of facet F of conv(V)
+\* an (unnormalised) integer outward normal of facet F of conv(V): any three non-collinear points of F,
+\* oriented away from a vertex that is not on F
 FacetNormal(F, V) ==
-    LET t == CHOOSE u \in F \X F \X F : Supporting(u[1], u[2], u[3], V)
-    IN Cross3(Sub3(t[2], t[1]), Sub3(t[3], t[1]))
+    LET a == CHOOSE p \in F : TRUE
+        b == CHOOSE p \in F : p # a
+        c == CHOOSE p \in F : ~Collinear3(a, b, p)
+        n == Cross3(Sub3(b, a), Sub3(c, a))
+        w == CHOOSE p \in V : p \notin F
+    IN IF Dot3(n, Sub3(w, a)) < 0 THEN n ELSE <<-n[1], -n[2], -n[3]>>
 
 \* primitive outward normal and offset:  n . x = off on the facet, n . x < off inside
 Gcd3(n) == Gcd(Gcd(n[1], n[2]), n[3])
